@@ -167,6 +167,16 @@ def gen_cases(ctx: Ctx) -> List[Dict[str, Any]]:
         if eng == "langevin":
             sc["damp"] = 20.0
         cases.append({"sc": sc, "crashes": [dict(step=5, upto=int(rng.integers(0, 7)), hard=bool(i % 2))]})
+    # run options that act inside the step loop (velocity rescaling to a target temperature, energy-shift control with a reference energy taken
+    # at the first step): a resumed run must keep applying them with the same reference
+    opts = [{"scale_vel": [2, 400.0]}, {"control_energy_shift": True}, {"scale_vel": [3, 250.0]}]
+    for i, rk in enumerate(opts if ctx.thorough else [opts[ctx.seed % 2], opts[(ctx.seed + 1) % 2]]):
+        eng = ["basic", "langevin", "xl", "ksa"][(i + ctx.seed) % 4]
+        sc = sc_(dict(data=1, coordinates=int(rng.choice([1, 2])), velocities=1, forces=0, xyz=int(rng.choice([0, 1])), print=0, ckpt=int(rng.choice([2, 3]))), 7, engine=eng, k=4, seed=int(rng.integers(1, 999)))
+        if eng == "langevin":
+            sc["damp"] = 20.0
+        sc["run_kwargs"] = rk
+        cases.append({"sc": sc, "crashes": [dict(step=int(rng.integers(3, 7)), upto=int(rng.integers(0, 8)), hard=bool(rng.integers(0, 2)))]})
     # real engine on molecules whose state is more than (species, coordinates, velocities): ions (total charge), a batch with mixed charges
     ions = [(("oh-",), [-1]), (("h2o",), [2]), (("nh4+", "h2o"), [1, 0]), (("oh-", "h2"), [-1, 0])]
     for i, (mols, ch) in enumerate(ions if ctx.thorough else [ions[ctx.seed % 2], ions[2 + ctx.seed % 2]]):
